@@ -308,6 +308,7 @@ static int remoteSync(MPT_INTERFACE(output) *out, int timeout)
 		if (pos < 0 || pos > (int) sizeof(uintptr_t)) {
 			mpt_log(0, _func, MPT_LOG(Error), "%s (%i)",
 			        MPT_tr("bad message id"), pos);
+			buf->_used = 0;
 			return MPT_ERROR(BadValue);
 		}
 		if ((ans = mpt_command_get(&od->con._wait, ansid))) {
@@ -323,13 +324,20 @@ static int remoteSync(MPT_INTERFACE(output) *out, int timeout)
 			/* command is finished with its first answer: release it before the call
 			 * (it may register new requests) */
 			ans->cmd = 0;
-			if (rcmd(rarg, &msg) < 0) {
+			pos = rcmd(rarg, &msg);
+			/* the datagram is consumed (unless the command started a new message) */
+			if ((buf = od->con.out.buf._buf) && !(od->con.out.state & MPT_OUTFLAG(Active))) {
+				buf->_used = 0;
+			}
+			if (pos < 0) {
 				return 0;
 			}
 			continue;
 		}
 		mpt_log(0, _func, MPT_LOG(Error), "%s (%" PRIx64 ")",
 		        MPT_tr("bad reply id"), ansid);
+		/* the datagram is consumed: nothing of it may stay in front of the next outgoing message */
+		buf->_used = 0;
 		return MPT_ERROR(BadValue);
 	}
 }
